@@ -18,6 +18,7 @@ func genEmail(rng *rand.Rand, thorough bool) {
 	for _, m := range []string{"abcdefgh.ijklmnop@qrstuvwx.yzabcdef.com", "a1b2c3d4e5f6g7h8@i9j0k1l2-m3n4o5p6.q7r8", "ops@eu-west-1.compute.internal.example.com",
 		"user.name+tag@aaaaaaaaaaaaaaaaaaaaaaaaaaaaaaaa.bb"} {
 		sweepPositions(m)
+		sweepPairs(m)
 	}
 	// bounded-exhaustive over a class alphabet
 	alphabet := []string{"a", "1", ".", "-", "_", "@", "+", "(", "é", "\xff"}
